@@ -956,6 +956,12 @@ def option_map_or(ctx):
         if len(segs) >= 2 and segs[-2] in ex.si.enums and segs[-1] in ex.si.enums[segs[-2]] and some is not None:
             vs = ex.si.enums[segs[-2]]
             mapped = Agg(segs[-2], {}, vs.index(segs[-1]), {vs.index(segs[-1]): {0: some}}, vs)
+    if mapped is None and isinstance(f, Agg) and some is not None:
+        body = ex.db.closure_fn(f.name)
+        if body is not None:
+            r = ex.call_sub_merge(st, body, [f, some]) if isinstance(default, Bool) else ex.call_sub(st, body, [f, some])
+            if r is not None:
+                mapped = r
     if mapped is None:
         return NotImplemented
     d = v.discr
@@ -1185,3 +1191,63 @@ def seq_remove_variants(ctx):
         items.pop(i)
     ex.store(st, loc[0], loc[1], SeqV.from_items(items, v.elem_ty, v.kind))
     return x if is_vec else mk_option(ex, x)
+
+
+# --------------------------------------------------------------------------- HashMap with structured keys (explicit entry list, exact bounded key equality)
+
+def _gmap(ex, st, ref):
+    v = ex.load(st, ref.cell, ref.path)
+    if isinstance(v, Opaque):
+        v = Agg('GMap', {0: SeqV.from_items([], None, 'entries')})
+        ex.store(st, ref.cell, ref.path, v)
+    if isinstance(v, Agg) and v.name == 'GMap':
+        return v
+    return None
+
+
+@contract(r'^HashMap::<\((?:std::string::)?String, (?:std::string::)?String\), .*>::(get|insert|remove|contains_key)(?:::<.*>)?$')
+def gmap_ops(ctx):
+    from contracts import value_eq
+    ex, st = ctx.ex, ctx.st
+    mref = ctx.args[0]
+    while isinstance(mref, Ref) and isinstance(ex.load(st, mref.cell, mref.path), Ref):
+        mref = ex.load(st, mref.cell, mref.path)
+    m = _gmap(ex, st, mref)
+    if m is None:
+        return NotImplemented
+    op = re.search(r'::(get|insert|remove|contains_key)(?:::<.*>)?$', ctx.callee).group(1)
+    key = ex.deref(st, ctx.args[1])
+    entries = m.fields[0].items      # list of Agg('entry', {0:key, 1:present Bool, 2:value})
+    present = z3.BoolVal(False)
+    val = None
+    for e in entries:                # later entries shadow earlier ones
+        eq = value_eq(ex, st, key, e.fields[0])
+        if eq is None:
+            return NotImplemented
+        present = z3.If(eq, e.fields[1].t, present)
+        val = e.fields[2] if val is None else ex.ite(eq, e.fields[2], val)
+    present = simp(present)
+    st.trace.append(('map.' + op, key))
+    if op == 'contains_key':
+        return Bool(present)
+    if op == 'get':
+        if val is None:
+            return mk_option(ex, None)
+        return Agg('Option', {}, simp(z3.If(present, BV(1, 64), BV(0, 64))), {1: {0: Ref(st.alloc(val), ())}}, ex.si.enums['Option'])
+    old = mk_option(ex, None) if val is None else Agg('Option', {}, simp(z3.If(present, BV(1, 64), BV(0, 64))), {1: {0: val}}, ex.si.enums['Option'])
+    if op == 'insert':
+        newe = Agg('entry', {0: key, 1: Bool(True), 2: ctx.args[2]})
+    else:
+        newe = Agg('entry', {0: key, 1: Bool(False), 2: val if val is not None else Bool(False)})
+    ex.store(st, mref.cell, mref.path, Agg('GMap', {0: SeqV.from_items(entries + [newe], None, 'entries')}))
+    return old
+
+
+@contract(r'^(?:std::option::)?Option::<&.*>::cloned$|^(?:std::option::)?Option::<&.*>::copied$')
+def option_cloned(ctx):
+    ex, st = ctx.ex, ctx.st
+    v, _ = to_enum(ex, st, ctx.args[0])
+    p = v.variants.get(1, {}).get(0)
+    if p is None:
+        return v
+    return Agg('Option', {}, v.discr, {1: {0: ex.deref1(st, p)}}, v.vnames)
